@@ -328,6 +328,15 @@ def real_reads(conn, oids, minimize=False):
 
 
 # ---------------------------------------------------------------- running a case
+class Verdict(Exception):
+    """an observation of the implementation that is itself a violation (never an InfraError: an exit 2
+    on a changed tree would be neither caught nor clean)"""
+
+    def __init__(self, sig, what):
+        Exception.__init__(self, what)
+        self.sig, self.what = sig, what
+
+
 class StopCase(Exception):
     """the history was damaged by a write that must have failed: stop probing this case"""
 
@@ -414,7 +423,9 @@ class World:
     def note_commit(self, writes):
         tid = u64(self.st.lastTransaction())
         if self.rec.txns and tid <= self.rec.ltid():
-            raise InfraError('commit did not advance lastTransaction')
+            raise Verdict('C15:commit-did-not-advance-lasttransaction',
+                          'after a successful commit lastTransaction() is %d, the newest transaction before it '
+                          'was %d: the commit got no tid of its own' % (tid, self.rec.ltid()))
         self.rec.add(tid, writes)
         model_txn(self.obs, tid, writes, len(self.rec.txns))
         for oid in writes:
@@ -916,7 +927,13 @@ def run_case(case, tmp, full=True):
     obs = Obs()
     rng = random.Random(case['probe_seed'])
     with clock.scripted() as clk:
-        world = World(case, tmp, obs)
+        try:
+            world = World(case, tmp, obs)
+        except InfraError:
+            raise
+        except Exception as e:      # noqa: BLE001  (the implementation failed while creating the database)
+            obs.bad.append(('C15:error', 'creating the database: unexpected %s: %s' % (type(e).__name__, str(e)[:200])))
+            return obs
         clk.step = case.get('clock', 1.0)           # 0: stalled clock (tids differ by one), < 0: regressing
         try:
             rec = world.rec
@@ -1022,14 +1039,23 @@ def run_case(case, tmp, full=True):
             raise
         except StopCase:
             pass
+        except Verdict as v:
+            obs.bad.append((v.sig, v.what))
         except Exception as e:      # noqa: BLE001
             obs.bad.append(('C15:error', 'unexpected %s: %s' % (type(e).__name__, str(e)[:200])))
         finally:
             world.close()
-    if case.get('sched') and not obs.bad:
-        run_sched_section(case, tmp, obs)
-    if case.get('multi') and not obs.bad:
-        run_multi_section(case, tmp, obs)
+    for flag, section in (('sched', run_sched_section), ('multi', run_multi_section)):
+        if case.get(flag) and not obs.bad:
+            try:
+                section(case, tmp, obs)
+            except InfraError:
+                raise
+            except Verdict as v:
+                obs.bad.append((v.sig, v.what))
+            except Exception as e:      # noqa: BLE001  (set-up of the section on a changed tree)
+                obs.bad.append(('C15:%s-error' % flag, '%s section: unexpected %s: %s'
+                                % (flag, type(e).__name__, str(e)[:200])))
     return obs
 
 
@@ -1198,7 +1224,9 @@ def run_multi_section(case, tmp, obs):
                     if n == 'two':
                         model_txn(obs, lt, w, len(recs[n].txns))
                 elif w:
-                    raise InfraError('multi-database commit did not reach database %s' % n)
+                    raise Verdict('C15:commit-did-not-advance-lasttransaction',
+                                  'multi-database commit: lastTransaction() of database %r did not advance '
+                                  'although the transaction wrote to it' % n)
 
         def apply(op):
             tm.begin()
@@ -1393,6 +1421,8 @@ def run_multi_section(case, tmp, obs):
             pass
         except InfraError:
             raise
+        except Verdict as v:
+            obs.bad.append((v.sig, v.what))
         except Exception as e:      # noqa: BLE001
             obs.bad.append(('C15:multi-error', 'multi-database section: unexpected %s: %s'
                             % (type(e).__name__, str(e)[:200])))
